@@ -38,6 +38,9 @@ COMMANDS = [
     ['flash', ['boot']], ['erase', ['cache']], ['get_var', ['version']],
     ['oem', ['poweroff']], ['oem', ['bootconfig read']], ['continue_', []],
     ['reboot', []], ['reboot', ['recovery']], ['reboot_bootloader', []],
+    # commands longer than a USB packet: still one write each
+    ['oem', ['set-config ' + 'k=v;' * 30]], ['get_var', ['x' * 100]],
+    ['flash', ['partition_' + 'p' * 70]],
 ]
 SIZES = [0, 1, CHUNK - 1, CHUNK, CHUNK + 1, 2 * CHUNK - 1, 2 * CHUNK,
          2 * CHUNK + 1, 3 * CHUNK + 5]
